@@ -108,8 +108,12 @@ CHECKS = {
          "Naming-focused valid schemas (consecutive capitals, digits, underscores, case-only and underscore-only differences, Rust keywords and reserved words as type / field / edge / entrypoint names, Type vs Type_, std-like names): "
          "a refusal for a predicted identifier collision is accepted, any other generator failure or a stub that rustc rejects is a violation. Quick 7 schemas, thorough 19.",
          "'Is valid Rust' is decided by rustc, not by the model; properties use built-in scalars only."),
+ "C27": (EX, "6/C27", "rows through the freshly built Python bindings (Python mirror of GraphAdapter) = Rust engine rows = Sem.tla (TLC judge); Python value conversion cases judged by TLC against PyValue.tla",
+         "400 (thorough 3000) instances are executed through pytrustfall's execute_query with a Python GraphAdapter: row sequence equal to the Rust engine's, bag equal to Sem. 44 Python values (None, bools, ints at and beyond every 64-bit boundary, "
+         "finite and non-finite floats, unicode strings, homogeneous / heterogeneous / nested lists, tuple, dict, bytes, float-like and arbitrary objects) are sent as property values (must come back equal) and as arguments; accept / reject and returned kind are compared with PyValue.tla, whose laws TLC checks.",
+         "CPython 3.11 of the sandbox decides; the model supplies the value-kind semantics."),
 }
-NOT_YET ="check not built yet at this commit (see DESIGN.md section 6 for the planned decision procedure)"
+NOT_YET = "check not built yet at this commit (see DESIGN.md section 6 for the planned decision procedure)"
 
 def main():
     checks = []
